@@ -1,6 +1,6 @@
 """C08 - compact never changes the covered region."""
 import random
-from . import core, params, cells, compaction as cp
+from . import core, params, cells, compaction as cp, session
 
 
 def run(v, prefixes=("C08",), pid="C08"):
@@ -68,7 +68,18 @@ def run(v, prefixes=("C08",), pid="C08"):
                 gset = set(g)
                 others = [o for o in others if not any(_comparable(ser, o, x) for x in gset)]
             events.append(cp.compact_event(cp.permuted(g + others, rng, dup=(pid == "C09"))))
+    for k in range(60 if quick else 1200):
+        for run in cp.stride_runs(p, rng):
+            events.append(cp.compact_event(cp.permuted(run, rng, dup=False)))
+    if pid == "C08":
+        # the world cell together with faces / segments (overlapping ancestors at the very top of the tree)
+        for k in range(12 if quick else 60):
+            some = rng.sample(faces, rng.randrange(1, 5)) + ([faces[0]] if k % 2 else [])
+            lst = [0] + some + (ser.cell_to_children(faces[k % 12], 1)[:rng.randrange(0, 6)])
+            events.append(cp.compact_event(cp.permuted(lst, rng) if k % 3 else lst))
     bad = cp.judge_events(d, v, events, prefixes)
+    if not quick:
+        session.run(d, v, quick, ("compact",), pid + ".session", core.seed() + (800 if pid == "C08" else 900))
     v.cov["inputs_from_tlc"] = n_model
     v.cov["random_and_pattern_inputs"] = len(events) - n_model
     v.cov["events_with_hook_passes"] = sum(1 for e in events if e["passes"])
@@ -91,6 +102,8 @@ def _comparable(ser, a, b):
 
 
 def replay(v, obj, prefixes=("C08",)):
+    if "session" in obj:
+        return session.replay_file(v, obj, prefixes[0] + ".session")
     ids = [int(x, 16) for x in obj["input"]]
     d = core.workdir(prefixes[0] + "_replay")
     params.stage(d)
